@@ -81,6 +81,43 @@ def main():
             Deep.start = lambda self: None
             d = deep.start(code)
             out['frames'] = [list(d.config.is_app_frame(p)) for p in case['paths']]
+        elif kind == 'root_sequence':
+            # several agents configured one after the other in ONE process: each resolves its own application root, and
+            # none of them changes what another configuration - or a plain ConfigService({}) - resolves
+            import tempfile
+            import deep
+            from deep.api.deep import Deep
+            Deep.start = lambda self: None
+            baseline = ConfigService({}, tracepoints=TracepointConfigService()).APP_ROOT
+            other = tempfile.mkdtemp(prefix='rootseq_')
+            os.makedirs(os.path.join(other, 'pkg'))
+            other_file = os.path.join(other, 'pkg', 'main.py')
+            src = 'import deep\n\ndef go(cfg):\n    return deep.start(cfg)\n'
+            ns = {}
+            exec(compile(src, other_file, 'exec'), ns)
+            agents, want = [], []
+            for how in case['seq']:
+                os.environ.pop('DEEP_APP_ROOT', None)
+                if how == 'computed_here':
+                    agents.append(deep.start({}))
+                    want.append(os.path.dirname(os.path.dirname(os.path.abspath(__file__))))
+                elif how == 'computed_other':
+                    agents.append(ns['go']({}))
+                    want.append(other)
+                elif how == 'code':
+                    agents.append(deep.start({'APP_ROOT': '/x/from_code'}))
+                    want.append('/x/from_code')
+                else:
+                    os.environ['DEEP_APP_ROOT'] = '/x/from_env'
+                    agents.append(ns['go']({}))
+                    want.append('/x/from_env')
+            os.environ.pop('DEEP_APP_ROOT', None)
+            out['roots'] = [a.config.APP_ROOT for a in agents]
+            out['want'] = want
+            out['plain_before'] = baseline
+            out['plain_after'] = ConfigService({}, tracepoints=TracepointConfigService()).APP_ROOT
+            import shutil
+            shutil.rmtree(other, ignore_errors=True)
         elif kind == 'app_root_src':
             import deep
             from deep.api.deep import Deep
